@@ -7,11 +7,11 @@ from vlib import core, symrun, flow
 
 PID = "C04"
 BITS = {"scalar": 0, "sse2": 128, "sse42": 128, "avx": 256, "avx2": 256, "avx512": 512}
-TSIZE = {"float": 4, "double": 8, "int32_t": 4, "int64_t": 8, "std::complex<double>": 8}   # lanes of complex<double> = lanes of double
-RTYPES = ["float", "double", "int32_t", "int64_t", "std::complex<double>"]
+TSIZE = {"float": 4, "double": 8, "int32_t": 4, "int64_t": 8, "std::complex<double>": 8, "std::complex<float>": 4}   # lanes of complex<U> = lanes of U
+RTYPES = ["float", "double", "int32_t", "int64_t", "std::complex<double>", "std::complex<float>"]
 
 def tname(t):
-    return t.replace('std::complex<double>', 'cdouble')
+    return t.replace('std::complex<double>', 'cdouble').replace('std::complex<float>', 'cfloat')
 
 def lanes(isa, sz):
     return max(1, BITS[isa] // (8 * sz))
@@ -44,6 +44,7 @@ def dyn_family(V, rng, tier):
     fam.append(((1, 0, 0), (2, 4, 4 * V), (1, 2, 2 * V)))
     fam.append(((2, 0, 1), (3, 4, 3), (3, 2, 1)))
     fam.append(((0, 0, 1, 0), (2, 3, 2, V + 2), (2, 2, 1, V)))
+    fam.append(((1, 2), (3, V + 1), (1, V + 1)))                                    # A(i, all)
     if tier == "thorough":
         fam.append(((0, 0, 1, 0, 0), (2, 2, 2, 3, V + 2), (1, 2, 1, 2, V)))       # rank 5
         fam.append(((0, 2, 0, 1, 0), (2, 2, 3, 2, 2 * V + 1), (2, 2, 2, 1, V + 1)))
@@ -59,7 +60,7 @@ def dyn_family(V, rng, tier):
 
 # quick tier: the classes every group runs, and the ones that rotate over the groups / seeds (indices into the families)
 DYN_ALWAYS = [0, 1, 4, 6, 7, 8, 9, 11, 14, 15, 16, 18]
-DYN_ROTATE = [[2, 3], [5, 10, 12, 13], [17, 19]]
+DYN_ROTATE = [[2, 3], [5, 10, 12, 13], [17, 19, 20]]
 FIX_ALWAYS = [0, 4, 7, 8, 9]
 FIX_ROTATE = [[1, 2], [3, 5, 6, 10]]
 
@@ -71,7 +72,7 @@ def pick_quick(fam, always, rotate, tier, k):
 def const_rejected(ks, ck):
     """a const 2-D tensor indexed with one `all` and one seq is not accepted by the library (no matching
     TensorConstViewExpr constructor): compile acceptance is not part of C04, the combination is run non-const"""
-    return ck == 1 and len(ks) == 2 and 2 in ks and 0 in ks
+    return False   # repaired on fix/c04: the const 2-D overloads for one fixed and one dynamic range were added
 
 def spell(rng, f, l, s, D):
     w = rng.randint(0, 2)
@@ -125,11 +126,11 @@ def sym_groups(tier, seed):
             V = lanes(isa, sz)
             calls = []
             for n, (ks, par, res) in enumerate(pick_quick(dyn_family(V, rng, tier), DYN_ALWAYS, DYN_ROTATE, tier, seed + gi)):
-                for ck in ((n + seed) % 2,) if tier == "quick" else (0, 1):
+                for ck in ((n + seed + gi) % 2,) if tier == "quick" else (0, 1):
                     if const_rejected(ks, ck): ck = 0
                     calls.append("run_view<Sym%d,%d,%s,%s,%s>(%d,%d,%du);" % (sz, ck, kinds(ks), dims(par), dims(res), smax, cap, seed * 31 + n))
             for n, (par, sq) in enumerate(pick_quick(fix_family(V, rng, tier), FIX_ALWAYS, FIX_ROTATE, tier, seed + gi)):
-                for ck in ((n + seed + 1) % 2,) if tier == "quick" else (0, 1):
+                for ck in ((n + seed + gi + 1) % 2,) if tier == "quick" else (0, 1):
                     calls.append(fix_call("run_fix", "Sym%d" % sz, ck, par, sq))
             # fixed integers fix<k>, k < 0 counted from the end, next to fseq axes
             Dc = 2 * V + 3; rr = random.Random(seed * 101 + gi)
@@ -142,6 +143,18 @@ def sym_groups(tier, seed):
                 calls.append("run_mview<Sym%d,%s,%s,%s>(%d,%d,%du);" % (sz, kinds(ks), dims(par), dims(res), smax, cap, seed * 13 + n))
             calls = list(dict.fromkeys(calls)); gi += 1
             groups.append({"key": "%s/sz%d" % (isa, sz), "header": "views_sym.h", "isa": isa, "opt": "-O0", "calls": calls})
+    # 16-byte carrier (complex<double>-sized): the 16-byte overloads of the gather helpers, strided and index-array form
+    for ii, isa in enumerate(isas):
+        V = lanes(isa, 8); rr = random.Random(seed * 77 + ii)
+        df = dyn_family(V, rr, "quick"); ff = fix_family(V, rr, "quick")
+        calls = []
+        for n, i in enumerate([4, 6 + (seed + ii) % 2, 14, 15] + ([1, 8, 10, 16, 19] if tier == "thorough" else [])):
+            ks, par, res = df[i]
+            calls.append("run_view<Sym16,%d,%s,%s,%s>(%d,%d,%du);" % ((n + seed + ii) % 2, kinds(ks), dims(par), dims(res), smax, cap, seed * 19 + n))
+        for n, i in enumerate([1, 4, 8] + ([0, 5, 7, 9] if tier == "thorough" else [])):
+            calls.append(fix_call("run_fix", "Sym16", (n + seed + ii + 1) % 2, ff[i][0], ff[i][1]))
+        calls.append("run_mview<Sym16,%s,%s,%s>(%d,%d,%du);" % (kinds((0, 0)), dims((4, 2 * V + 1)), dims((2, V)), smax, cap, seed))
+        groups.append({"key": "%s/sz16" % isa, "header": "views_sym.h", "isa": isa, "opt": "-O0", "calls": calls})
     if tier == "thorough":
         # the C++17 branches (if constexpr in the fixed views): one group again under -std=c++17
         for g in [g for g in groups if g["key"] in ("avx2/sz4", "avx512/sz8")]:
@@ -182,8 +195,6 @@ def real_groups(tier, seed):
     for isa in isas:
         for t in RTYPES:
             gi += 1
-            if isa == "scalar" and "complex" in t:
-                continue      # compile acceptance: with FASTOR_DONT_VECTORISE no vector_setter overload matches complex<double>
             V = lanes(isa, TSIZE[t])
             dfam = dyn_family(V, rng, tier); ffam = fix_family(V, rng, tier)
             if tier == "quick":
@@ -192,19 +203,31 @@ def real_groups(tier, seed):
                 dfam = [dfam[i] for i in pick]; ffam = [ffam[i] for i in (3 + (seed + gi) % 4, 7 + (seed + gi) % 3)]
             calls = []
             for n, (ks, par, res) in enumerate(dfam):
-                ck = 0 if const_rejected(ks, (n + seed) % 2) else (n + seed) % 2
+                ck = (n + seed + gi) % 2
                 calls.append("run_rview<%s,%d,%s,%s,%s>(%d,%d,%du);" % (t, ck, kinds(ks), dims(par), dims(res), smax, cap, seed * 17 + n))
             for n, (par, sq) in enumerate(ffam):
-                calls.append(fix_call("run_rfix", t, (n + seed + 1) % 2, par, sq))
+                calls.append(fix_call("run_rfix", t, (n + seed + gi + 1) % 2, par, sq))
             groups.append({"key": "%s/%s" % (isa, tname(t)), "header": "views_real.h", "isa": isa, "opt": "-O2", "calls": calls})
             if tier == "thorough" and isa in ("sse2", "avx2", "avx512"):
                 groups.append({"key": "%s/%s/ndebug" % (isa, tname(t)), "header": "views_real.h", "isa": isa, "opt": "-O2", "defs": ["-DNDEBUG"], "calls": calls,
                                "std": "c++17"})
+    # use sites: compound assignment, comparisons, reductions, linear algebra, mixed forms, TensorMap — per type the
+    # last extent is vector-only (V), vector + tail (V+1, 2V+1) and tail-only (V-1)
+    for ii, isa in enumerate(isas):
+        calls = []
+        for ti, t in enumerate(["float", "double", "int32_t", "int64_t"]):
+            V = lanes(isa, TSIZE[t])
+            sizes = [V, (V + 1 if (seed + ii + ti) % 2 else 2 * V + 1), max(1, V - 1)] + ([3 * V, V + 2, 1] if tier == "thorough" else [])
+            for k, nl in enumerate(sorted(set(sizes))):
+                calls.append("run_use<%s,%d,%d>();" % (t, 2 + (k + ti + seed) % 2, nl))
+        if isa == "sse2":
+            calls += ["run_dynres<double>();", "run_dynres<int32_t>();"]
+        groups.append({"key": "%s/use" % isa, "header": "views_use_real.h", "isa": isa, "opt": "-O1", "calls": calls})
+        if tier == "thorough" and isa in ("sse2", "avx512"):
+            groups.append({"key": "%s/use/ndebug17" % isa, "header": "views_use_real.h", "isa": isa, "opt": "-O2", "std": "c++17", "defs": ["-DNDEBUG"], "calls": calls})
     for isa in isas:
         calls = []
         for t in RTYPES:
-            if isa == "scalar" and "complex" in t:
-                continue
             V = lanes(isa, TSIZE[t])
             for n in sorted(set([V, 2 * V + 1] + ([max(2, V - 1), 3 * V] if tier == "thorough" else []))):
                 calls.append("run_rdiag<%s,%d>();" % (t, n))
@@ -229,8 +252,10 @@ def coverage_summary(tier, seed):
     return {"instantiations": {"dynamic views (Tensor parent)": count(sg, "run_view<"), "dynamic views (TensorMap parent)": count(sg, "run_mview<"),
                                "fixed views": count(sg, "run_fix<"), "fixed views with fix<k> integers": count(sg, "run_fixi<"),
                                "scalar indexing shapes": count(sg, "run_sidx<"), "iseq": count(sg, "run_iseq<"), "diagonal views": count(sg, "run_diag<") + count(rg, "run_rdiag<"),
-                               "real-type dynamic": count(rg, "run_rview<"), "real-type fixed": count(rg, "run_rfix<")},
-            "vector_widths": sorted(set(lanes(g["isa"], int(g["key"][-1])) for g in sg if "/sz" in g["key"])),
+                               "real-type dynamic": count(rg, "run_rview<"), "real-type fixed": count(rg, "run_rfix<"),
+                               "real-type use sites (x ~45 forms each)": count(rg, "run_use<")},
+            "vector_widths": sorted(set(lanes(g["isa"], 8 if g["key"].endswith("sz16") else int(g["key"].split("/sz")[1][0])) for g in sg if "/sz" in g["key"])),
+            "carrier_sizes": [4, 8, 16],
             "size_classes": "per width V: rank-1 extents V-1,V,V+1,2V,2V+1; 2-D last extents <V,V,V+1,2V+1 with steps 1..3; n-D last extents V (contiguous, strided), V+1 and 1 (gather/scalar); rank 4; "
                             "integers (also negative) and `all` mixtures; const and non-const",
             "real_type_configs": sorted(g["key"] for g in rg),
